@@ -71,6 +71,10 @@ class CompFail2(ValueError):
     pass
 
 
+class CompBaseFail(BaseException):
+    """an application-defined BaseException (not an Exception, not a cancellation)"""
+
+
 def lab(x: Any) -> Any:
     return getattr(x, "label", None) if x is not None else None
 
@@ -116,7 +120,7 @@ class Tree:
             tree.instances[path] = self
             tree.ctor_kwargs[path] = kw
             if node.get("ctor_fail"):
-                exc = (CompFail if node["ctor_fail"] == "E" else CompFail2)(f"ctor {path}")
+                exc = (CompFail if node["ctor_fail"] == "E" else CompBaseFail if node["ctor_fail"] == "B" else CompFail2)(f"ctor {path}")
                 tree.raised.append(exc)
                 raise exc
             for c, cls in children:
@@ -335,6 +339,8 @@ class Tree:
                         exc: BaseException = ExceptionGroup(f"group {path}:{phase}", [CompFail(f"{path}:{phase}")])
                     elif st[1] == "T":
                         exc = TimeoutError(f"{path}:{phase}")  # the component's own operation timed out
+                    elif st[1] == "B":
+                        exc = CompBaseFail(f"{path}:{phase}")
                     else:
                         exc = (CompFail if st[1] == "E" else CompFail2)(f"{path}:{phase}")
                     self.raised.append(exc)
@@ -405,6 +411,16 @@ class Tree:
                     elif b[0] == "crash":
                         env.log("svc-crash", label)
                         raise CompFail(f"svc {label}")
+                    elif b[0] == "owntd":
+                        # an asynchronous teardown callback on the task's OWN context (cancelled with the task at shutdown)
+                        async def own_td(label: str = label) -> None:
+                            env.log("svc-own-td+", label)
+                            try:
+                                await anyio.lowlevel.checkpoint()
+                            finally:
+                                env.log("svc-own-td-", label)
+
+                        ac.add_teardown_callback(own_td)
                     elif b[0] == "forever":
                         await anyio.Event().wait()
                     elif b[0] == "get":
